@@ -413,6 +413,9 @@ def run(chk, repo):
     chk.clauses.append('C13.i no parsing / record function of seqvar or circ is memoised while returning a mutable container (parsed records must not share attribute dictionaries)')
     memo_shared(chk, repo, 'C13.i', ['seqvar', 'circ'], floor=0)
     index_written_whole(chk, repo, 'C13.k')
+    from rules.shared import iterable_param_once
+    chk.clauses.append('C13.l (R-ONESHOT) seqvar.io.write consumes its `variants` argument (declared Iterable) once: a generator of records is written completely')
+    iterable_param_once(chk, repo, 'C13.l', 'seqvar.io:write')
     from rules.shared import kwname
     chk.clauses.append('C13.kw (shared R-THREAD) parameters handed on as keyword arguments keep their name: no `a=b` between two parameters of one function')
     kwname(chk, repo, 'C13.kw', ['seqvar', 'circ', 'cli.index_gvf'], floor=0)
